@@ -159,6 +159,18 @@ fn parse_op(tok: &str) -> Option<Op> {
             vol.parse().unwrap_or(0),
             custom.parse().unwrap_or(0),
         )),
+        // points written as struct literals (the fields are public): no clamping by the constructors
+        ["RS", t, bank, vol, custom] => Op::S(SamplePoint {
+            time: f64_of_hex(t),
+            sample_bank: bank_of(bank.parse().unwrap_or(0)),
+            sample_volume: vol.parse().unwrap_or(0),
+            custom_sample_bank: custom.parse().unwrap_or(0),
+        }),
+        ["RD", t, sv, ticks] => Op::D(DifficultyPoint {
+            time: f64_of_hex(t),
+            slider_velocity: f64_of_hex(sv),
+            generate_ticks: *ticks == "1",
+        }),
         _ => return None,
     })
 }
